@@ -734,6 +734,27 @@ def bracket_oracle(chk: core.Check, rounds: int) -> None:
                                       "Hyperband bracket of trial %d of study %r changed with the history or is not the crc32 budget walk" % (n, name))
                 ids.append(again)
             chk.count("bracket-oracle:study")
+        # the same pruner *object* serving a second, differently named study: the bracket must still be
+        # a function of that study's name and the trial number only (no memory of the first study)
+        if hb._pruners:
+            name2 = name + "-other"
+            st2 = optuna.create_study(pruner=hb, study_name=name2, storage=optuna.storages.InMemoryStorage(), sampler=optuna.samplers.RandomSampler(seed=7))
+            for n in range(12):
+                t = st2.ask()
+                t.report(r.random(), 0)
+                t.should_prune()
+                bid = hb._get_bracket_id(st2, st2._storage.get_trial(t._trial_id))
+                h = crc_of(name2, n) % hb._total_trial_allocation_budget
+                b = 0
+                while h - hb._trial_allocation_budgets[b] >= 0:
+                    h -= hb._trial_allocation_budgets[b]
+                    b += 1
+                if bid != b:
+                    chk.violation({"kind": "bracket-not-function-of-name-number"}, {"name": name2, "n": n, "got": bid, "walk": b, "shared_pruner_first_used_on": name},
+                                  "a HyperbandPruner object first used on study %r gives trial %d of study %r bracket %d, the crc32 walk of (name, number) gives %d" % (name, n, name2, bid, b))
+                    break
+                st2.tell(t, r.random())
+            chk.count("bracket-oracle:shared-pruner")
         if len(ids) == 2 and ids[0] != ids[1]:
             chk.violation({"kind": "bracket-not-function-of-name-number"}, {"name": name, "a": ids[0], "b": ids[1]},
                           "two studies named %r give different brackets to equal trial numbers" % name)
